@@ -3,19 +3,11 @@
   (NASEncrypt, NASMacCalculate, NEA1, NEA2, NIA1, NIA2, mulx, mulxPow, mul).
 -/
 import Stgutg.Base.Prims
+import Stgutg.Base.Words
 import Stgutg.Model.Snow3g
 
 namespace Stgutg.Model.NasAlg
 open Stgutg.Model
-
-def be32 (b : Bytes) : UInt32 :=
-  match b with
-  | [a, b, c, d] => (a.toUInt32 <<< 24) ||| (b.toUInt32 <<< 16) ||| (c.toUInt32 <<< 8) ||| d.toUInt32
-  | _ => 0
-
-def u32Bytes (w : UInt32) : Bytes := [(w >>> 24).toUInt8, (w >>> 16).toUInt8, (w >>> 8).toUInt8, w.toUInt8]
-
-def be64 (b : Bytes) : UInt64 := b.foldl (fun a x => (a <<< 8) ||| x.toUInt64) 0
 
 /-- `k[i] = BigEndian.Uint32(ck[4*(3-i) : 4*(3-i+1)])` for i = 0..3; key must have 16 octets (it is a `[16]byte`). -/
 def keyWords (ck : Bytes) : UInt32 × UInt32 × UInt32 × UInt32 :=
